@@ -62,6 +62,21 @@ def check_op(prog, rep, m, name):
                 "np.nditer iterates in memory order ('K') by default; the cell order must be fixed to C (row-major) "
                 "to agree with the row-major reference list and the (-1, ncols) reshape - otherwise F-ordered or "
                 "transposed layers scramble the output")
+    for c in its:
+        # L6: the layers are taken in the caller's data_vars order
+        arg = c.args[0] if c.args else None
+        if isinstance(arg, ast.Name):
+            vals = [v for v in f.local_assigns().get(arg.id, []) if isinstance(v, ast.AST)]
+            arg = vals[0] if len(vals) == 1 else None
+        ok = False
+        if isinstance(arg, ast.ListComp) and len(arg.generators) == 1:
+            g = arg.generators[0]
+            tv = g.target.id if isinstance(g.target, ast.Name) else None
+            ok = isinstance(g.iter, ast.Name) and g.iter.id == 'data_vars' and not g.ifs and tv is not None and \
+                norm(arg.elt) in ('raster[%s].data' % tv, 'raster[%s].values' % tv)
+        rep.add('L6', f, name, 'layers: %s' % (norm(arg)[:120] if arg is not None else None), c.lineno, ok,
+                'the layers must be taken as raster[var] for var in data_vars, in the caller\'s data_vars order '
+                '(positions, ranks and value tuples are defined relative to that order)')
     if not its:
         # alternative lock-step idioms: zip of ravel()/flatten() (C order by default)
         alt = [c for c in calls(f.node) if short(c) in ('ravel', 'flatten')]
@@ -288,6 +303,7 @@ def check(prog, rep):
     for name in OPS:
         check_op(prog, rep, m, name)
     rep.floor('L1', 9)
+    rep.floor('L6', 9)
     rep.floor('L5', 9)
     rep.floor('L2', 3)
     rep.floor('L3', 7)
